@@ -64,6 +64,12 @@ CHECKS = {
             "surviving reference cannot hide behind bare column names); a __dict__ walker that shares nothing with nodes_ looks for any table equal to OLD in R; the "
             "receiver must render as before; exceptions are violations. One template per clause slot makes the statement matrix exhaustive.",
             "Trusted: pbt/prog.py substitution of the table symbol; the walker's notion of 'reference' (Table instances reachable through __dict__, not through a field's subquery namespace)."),
+    "C14": ("Hypothesis-generated join programs against an independent availability model; exhaustive enumeration of set-operation arities, CASE, conflict-handler call orders, RETURNING kinds and one-shot calls against an expected-exception table",
+            "Both directions are checked: a JoinException must be raised at the join call iff the criterion (outside subquery operands) mentions a table that is not "
+            "in FROM, joined, being joined, the update table or a declared CTE, over every source shape; the finite families (set-operation arity x select-list lengths, "
+            "CASE with 0-2 WHENs, all conflict-handler call sequences up to length 4, RETURNING argument kinds x statement kinds, repeated one-shot calls) are enumerated "
+            "completely against the documented exception types.",
+            "Trusted: the availability model and the expected-exception table in pbt/props/c14.py (taken from the guards' messages and the error tests)."),
 }
 
 NOT_BUILT = {}
